@@ -1261,6 +1261,7 @@ pub fn check(world: &World, sc: &C17, sandbox: &str) -> Report {
             }
         }
     } else if let Some((r, _)) = &refr {
+        let in_place_out = sc.out.as_deref() == Some("context.zip");
         // no verdict on results under a flipped archive (entry names carry no checksum)
         let n_ok = if ctx_flipped { 0 } else { judge_blocks(&blocks, &expected, r, exhaustive, &mut rep, &how) };
         if rep.violation.is_some() {
@@ -1303,6 +1304,28 @@ pub fn check(world: &World, sc: &C17, sandbox: &str) -> Report {
                 }
             } else {
                 rep.probe("errors_reported_under_fault", 1);
+                // never wrong data: whatever the failed run left at the -o path, an entry
+                // `formula-i.bdd` that can be read from it must be result i (compared as text: a
+                // leftover need not hold well-formed BDDs)
+                // (not when an earlier run's archive was at the path: a failed open leaves it there)
+                if let Some(p) = &out_abs {
+                    if std::path::Path::new(p).is_file() && !sc.out_stale && !in_place_out {
+                        if let Ok(entries) = read_entries(p) {
+                            rep.probe("leftover_archives_inspected", 1);
+                            for (i, want) in r.results.iter().enumerate() {
+                                if let Some(bytes) = entries.get(&format!("formula-{i}.bdd")) {
+                                    if String::from_utf8_lossy(bytes) != want.as_bdd().to_string() {
+                                        rep.violate(
+                                            "leftover_archive_holds_wrong_set",
+                                            format!("{how}: the tool reported `{}`, yet left a well-formed archive at the -o path whose entry formula-{i}.bdd ({} bytes) is not the result of `{}` ({} bytes)", err_line.clone().unwrap_or_default(), bytes.len(), expected[i], want.as_bdd().to_string().len()),
+                                        );
+                                        return rep;
+                                    }
+                                }
+                            }
+                        }
+                    }
+                }
             }
         } else {
             rep.probe("torn_context_rejected", 1);
